@@ -820,6 +820,8 @@ class SgzReader(object):
             return trace
 
         else:
+            if (not self.structured) and (not override_unstructured_mapping) and not 0 <= index < self.tracecount:
+                raise IndexError(self.range_error.format(index, 0, self.tracecount - 1))
             if (not self.structured) and (not override_unstructured_mapping):
                 self.get_unstructured_mask()
                 index = int(np.arange(self.mask.shape[0])[self.mask != 0][index])
